@@ -504,7 +504,7 @@ impl Object for Content {
                     parts.push(part);
                 }
             }
-            Primitive::Reference(r) => return Self::from_primitive(t!(resolve.resolve(r)), resolve),
+            Primitive::Reference(r) => return Self::from_primitive(t!(resolve.resolve_deref(r)), resolve),
             p => {
                 let part = t!(ContentStream::from_primitive(p, resolve));
                 parts.push(part);
